@@ -54,6 +54,7 @@ func c14Keys() []string {
 		string(all),                            // every byte value
 		"",                                     // the empty key
 		"a\xffz",                               // the byte after the prefix "a" is 0xFF
+		"a%41",                                 // text that looks like a percent-escape (its "decoded" twin "aA" is another key)
 	}
 }
 
@@ -100,7 +101,7 @@ func c14Open(backend string) (*c14Inst, error) {
 		in.dsn += "&encrypt=on&encrypt_key=" + c14EncKey
 	}
 	if backend == "fscache-mtime" {
-		in.dsn += "&update_mtime=on"
+		in.dsn += "&update_mtime=on&timeout=0&connect_timeout=0s" // (zero timeouts mean the defaults)
 	}
 	in.conn, err = store.Open(in.dsn)
 	if err != nil {
